@@ -494,9 +494,124 @@ def check_property(opm, System, kind, case, extra):
     if kind == "purity":
         _, _, pure = code_eval(opm, System, case)
         return None if pure else ("C20:purity", f"{name}.calculate modified the System (or itself)")
+    if kind == "calculate-order":
+        r = check_calc_order(opm, System, case)
+        return r and (SIG_CO, r)
     if kind == "model":
         return None
     raise ValueError(kind)
+
+
+# --------------------------------------------------------------------------- EngineBase.calculate_order
+SIG_CO = "C20:calculate-order:velocity-direction"
+
+
+def make_engine(order_function, table):
+    """minimal EngineBase subclass: abstract methods stubbed, `_read_configuration` serves an in-memory table"""
+    from infretis.classes.engines.enginebase import EngineBase
+
+    class TableEngine(EngineBase):
+        def __init__(self):
+            super().__init__("C20 table engine", 0.002, 1)
+            self.reads = 0
+
+        def _read_configuration(self, filename):
+            self.reads += 1
+            xyz, vel, box = table[filename]
+            return xyz, vel, box, None
+
+        def modify_velocities(self, *a, **k):
+            raise NotImplementedError
+
+        def set_mdrun(self, md_items):
+            raise NotImplementedError
+
+        def _extract_frame(self, traj_file, idx, out_file):
+            raise NotImplementedError
+
+        def _propagate_from(self, *a, **k):
+            raise NotImplementedError
+
+        def _reverse_velocities(self, filename, outfile):
+            raise NotImplementedError
+
+    e = TableEngine()
+    e.order_function = order_function
+    return e
+
+
+def calc_order_eval(opm, System, case, vel_rev, route):
+    """engine.calculate_order on one route -> (tag, vals, purity problem or None)"""
+    xyz, vel = fl(case["pos"]), fl(case["vel"])
+    # the explicit route needs all three arrays (box None sends the code to the file route)
+    box = None if case["box"] is None else np.array([float(Fr(x)) for x in case["box"]], dtype=float)
+    keep = [a.copy() if a is not None else None for a in (xyz, vel, box)]
+    eng = make_engine(build(opm, case["op"]), {"frame.xyz": (xyz, vel, box)})
+    s = System()
+    s.config = ("frame.xyz", 3)
+    s.vel_rev = bool(vel_rev)
+    s.order = [0.25]
+    s.box = None      # the box the System had before the call (kept when the configuration has none);
+    #                   the default 3x3 zero matrix of a bare System() is outside the modelled domain
+    other0 = {k: repr(v) for k, v in vars(s).items() if k not in ("pos", "vel", "box")}
+    try:
+        with np.errstate(all="ignore"), warnings.catch_warnings():
+            warnings.simplefilter("ignore")
+            if route == "file":
+                out = eng.calculate_order(s)
+            else:
+                out = eng.calculate_order(s, xyz=xyz, vel=vel, box=box)
+        tag, vals = "ok", [float(x) for x in out]
+    except Exception as e:  # noqa: BLE001
+        tag, vals = err_kind(e), []
+    prob = None
+    for nm, a, b in zip(("xyz", "vel", "box"), (xyz, vel, box), keep):
+        if a is not None and a.tobytes() != b.tobytes():
+            prob = f"the {nm} array handed to calculate_order was modified in place"
+    other1 = {k: repr(v) for k, v in vars(s).items() if k not in ("pos", "vel", "box")}
+    if other0 != other1:
+        prob = f"calculate_order changed System attributes {sorted(k for k in other1 if other0.get(k) != other1[k])}"
+    if route == "explicit" and eng.reads and box is not None:
+        prob = "explicit arrays were given but the configuration file was read"
+    return tag, vals, prob
+
+
+def check_calc_order(opm, System, case, model=None):
+    """all of vel_rev x route for one (op, geometry).  `model` = {False: (tag, [Fr]), True: (...)}: the model's
+    pre-image on velocities multiplied by (-1)^vel_rev (None: exact python transcription).  -> None | what"""
+    name = case["op"][0]
+    res = {(vr, rt): calc_order_eval(opm, System, case, vr, rt) for vr in (False, True) for rt in ("file", "explicit")}
+    for key, (_, _, prob) in res.items():
+        if prob:
+            return f"{name} vel_rev={key[0]} route={key[1]}: {prob}"
+    ks = kinds_of(case)
+    kinds, skip = ks if ks else (["lin"] * 3, [False] * 3)
+    for vr in (False, True):
+        (tf, vf, _), (te, ve, _) = res[(vr, "file")], res[(vr, "explicit")]
+        if tf != te or (tf == "ok" and not same_vals(vf, ve, kinds, skip)):
+            return f"{name} vel_rev={vr}: file route gives {tf} {vf}, explicit-array route gives {te} {ve}"
+    for rt in ("file", "explicit"):
+        (t0, v0, _), (t1, v1, _) = res[(False, rt)], res[(True, rt)]
+        flip = name in VEL_TYPE
+        if t0 != t1 or (t0 == "ok" and not same_vals(v0, v1, kinds, skip, flip=flip)):
+            return (f"{name} route={rt}: vel_rev=False gives {t0} {v0}, vel_rev=True gives {t1} {v1} "
+                    f"({'sign change' if flip else 'no change'} expected)")
+    for vr in (False, True):
+        c = reversed_vel(case) if vr else case
+        mt, mv = model[vr] if model else py_pre(c, "asis")[:2]
+        for rt in ("file", "explicit"):
+            t, v, _ = res[(vr, rt)]
+            if mt == "nan":
+                ok = t == "ok" and all(math.isnan(x) for x in v)
+            elif mt != "ok":
+                ok = t == mt
+            else:
+                ev_, k_, s_ = tail(name, mv)
+                ok = t == "ok" and same_vals(v, ev_, k_, s_)
+            if not ok:
+                return (f"{name} vel_rev={vr} route={rt}: calculate_order gives {t} {v}, the model on velocities "
+                        f"times (-1)^vel_rev gives {mt} {[str(x) for x in mv]}")
+    return None
 
 
 # --------------------------------------------------------------------------- run
@@ -660,6 +775,30 @@ def run(ctx):
                 flips += 1
     ctx.extra["tie_observation"] = (f"{flips} Distancevel configurations with a component exactly at L/2 change sign when one atom is "
                                     "moved by one box vector (theorem image_shift_invariant_tie_counterexample); not counted as a failure")
+    # ---- EngineBase.calculate_order: vel_rev x route x box form, every built-in order parameter
+    co_cases = []
+    names6 = ["distance", "distancevel", "position", "velocity", "dihedral", "puckering"]
+    for _ in range(40 if q else 300):
+        for nm in names6:
+            for form in ("3", "9", "none"):
+                per = None if nm in ("position", "velocity") else rng.random() < 0.7
+                if nm == "distancevel" and form == "9" and ctx.extra["variant"] != "repaired":
+                    per = False     # periodic Distancevel + 9-box is the known IndexError (reported above)
+                co_cases.append(tie_free_case(rng, name=nm, periodic=per, boxform=form))
+    co_model = [None] * len(co_cases)
+    if have_model:
+        var = "rep" if ctx.extra["variant"] == "repaired" else "asis"
+        outm = ctx.driver([line(c, var) for c in co_cases] + [line(reversed_vel(c), var) for c in co_cases])
+        for k in range(len(co_cases)):
+            a, b = parse_model(outm[k]), parse_model(outm[len(co_cases) + k])
+            co_model[k] = {False: a[:2], True: b[:2]}
+    for k, c in enumerate(co_cases):
+        ctx.count(4, branch="calculate_order:" + c["op"][0])
+        r = check_calc_order(opm, System, c, co_model[k])
+        if r:
+            ctx.fail(SIG_CO, r, {"kind": "calculate-order", "case": c, "extra": {}})
+        else:
+            ctx.distinct(("calculate-order", str(c)))
     # observation (not a failure; reported for a decision): Path.reverse(order_function) recomputes the
     # orders of velocity-dependent parameters with order_function.calculate(phasepoint), which reads
     # system.vel and ignores the vel_rev flag that reverse() has just toggled.
